@@ -8,7 +8,7 @@ import vlib, apitrace, gen_trace
 
 SHIM_FLAGS = ["-DVERIF_SHIM", "-Dmmap=shim_mmap", "-Dmunmap=shim_munmap", "-Dmprotect=shim_mprotect", "-Dmadvise=shim_madvise",
               "-Dclock_gettime=shim_clock_gettime"]
-KINDS = {"crash", "content", "overlap", "inaccessible", "fail", "realloc-content", "zero", "rezalloc-zero", "walk", "usable", "align"}
+KINDS = {"crash", "content", "overlap", "inaccessible", "fail", "realloc-content", "zero", "rezalloc-zero", "walk", "usable", "align", "posix"}
 
 
 def build(res):
@@ -73,7 +73,7 @@ def run(res, a):
     rng = random.Random(a.seed)
     nwork = 0
     for si, opts in enumerate(settings if big else settings[:5]):
-        for profile, nops in (profiles if big else profiles[:4]):
+        for profile, nops in (profiles if big else profiles[:4] + ([("aligned", 60)] if si == 0 else [])):    # aligned: the posix / memalign entry points under refusals
             head, body, tail = workload(profile, a.seed * 50 + si, nops, opts)
             # reference run: how many OS calls does the window make without failures?
             ref = os.path.join(tdir, "ref_%s_%d.trace" % (profile, si))
